@@ -3,7 +3,7 @@ import KG.Driver.C03
 /-!
 Driver entry points for C14 (round-robin).
 
-`C14.run {setup:[C03 harness ops…], lb:[{key,c}…], uss:[[name…]…], impl:[pop outputs…]?, multiset:bool}` — the endpoint map is
+`C14.run {setup:[C03 harness ops…], lb:[{key,c}…], events:[[name…] | {sync:op}…], impl:[pop outputs…]?}` — the endpoint map is
 the one the C03 model reaches on `setup` (with quiescence after every op); the cursors are then overwritten with `lb`; the
 picks `uss` are run sequentially (`popMany`).  The reply carries the model's results and final cursors and, for the results
 `impl` observed from the implementation, the verdict of the counting judges `strictOK` / `boundedOK` of `KG.Spec.Endpoints`
@@ -63,9 +63,28 @@ def encodeId (e : EName × Nat) : Json := J.obj [("n", J.hex e.1), ("gen", J.nat
 def doRun (a : Json) : Except String Json := do
   let s ← runSetup (← J.getArr a "setup")
   let lb ← (← J.getArr a "lb").toList.mapM fun x => do pure (← decodeKey (← J.getObj x "key"), ← J.getNat x "c")
-  let uss ← (← J.getArr a "uss").toList.mapM fun x => do (← x.getArr?).toList.mapM J.asHex
-  let r := popMany s.eps lb uss
-  let keys := uss.map fun us => (readyList s.eps us).map EP.id
+  -- the window: picks (arrays of upstream names) and Syncs (`{"sync": <C03 sync op>}`) in between, in order
+  let events ← J.getArr a "events"
+  let mut st : State := { s with lb := lb }
+  let mut resultsA : Array PopOut := #[]
+  let mut keysA : Array Key := #[]
+  let mut stable := true     -- no Sync of the window changed an endpoint object: the ready sets are stable
+  for ev in events do
+    match ev with
+    | Json.arr xs =>
+      let us ← xs.toList.mapM J.asHex
+      keysA := keysA.push ((readyList st.eps us).map EP.id)
+      let r := pop st.eps st.lb us
+      resultsA := resultsA.push r.1
+      st := { st with lb := r.2 }
+    | _ =>
+      let h ← decodeOp st (← J.getObj ev "sync")
+      let r := step st h.op
+      let st' := (quiesce h.up (fuelOf r.1) r.1 []).1
+      if st'.eps != st.eps then stable := false
+      st := st'
+  let keys := keysA.toList
+  let r : List PopOut × List (Key × Nat) := (resultsA.toList, st.lb)
   -- judge the implementation's results (or the model's own when none are given), pick i ↔ result i
   let implRes ← match J.optObj a "impl" with
     | some i => (← i.getArr?).toList.mapM decodePop
@@ -74,7 +93,8 @@ def doRun (a : Json) : Except String Json := do
   let pairs := keys.zip implRes
   let verdicts := sets.map fun m =>
     let mine := pairs.filter fun p => canonSet p.1 == m
-    judgeGroup lb m (mine.map (·.1)) (mine.map (·.2))
+    let v := judgeGroup lb m (mine.map (·.1)) (mine.map (·.2))
+    if stable then v else { v with applicable := false, bad := none }
   pure <| J.obj [
     ("results", Json.arr (r.1.map encodePop).toArray), ("lb", encodeLb r.2),
     ("groups", Json.arr (verdicts.map fun v => J.obj [
